@@ -195,6 +195,27 @@ def run(ctx):
                 err2 = fro(Hn - utils.quat_matmat(utils.quat_matmat(Ut, S), utils.quat_hermitian(Vt))) ** 2; opt = float(sum(float(x) ** 2 for x in sref[R:]))
                 if abs(err2 - opt) > 1e-9 * scv * scv: viol('C05:near-hermitian:eckart-young', f'rank-{R} truncation error^2 {err2:.6e} != sum of discarded s^2 {opt:.6e} for a {kind} matrix', dict(inp, R=R), err2, opt)
                 ctx.count(('near-hermitian', n, kind, str(asym), R), True)
+    # graded spectra (full rank, values down to 1e-9 and 1e-12 of the largest): every value is a singular value -- none may be rounded to zero --
+    # compared RELATIVE to itself (the real SVD of the embedding gives absolute accuracy eps * s_max, i.e. 1e-4 relative at 1e-12)
+    for (m, n) in ((6, 4), (4, 4), (3, 5)) if ctx.quick() else ((6, 4), (4, 4), (3, 5), (5, 5), (8, 3)):
+        r = min(m, n)
+        for sv in ([Fraction(1), Fraction(1, 10 ** 3), Fraction(1, 10 ** 6), Fraction(1, 10 ** 9)][:r], [Fraction(5), Fraction(1, 10 ** 4), Fraction(1, 10 ** 8), Fraction(1, 10 ** 12)][:r]):
+            sv = sv + [Fraction(1, 10 ** 12)] * 0
+            A, _, _ = spectral_problem(rng, m, n, sv); An = qx.to_np(A)
+            inp = {'shape': [m, n], 'class': 'graded spectrum', 'singular_values': [str(x) for x in sv]}
+            for R in range(1, len(sv) + 1):
+                try: Ut, st, Vt = qsvd.classical_qsvd(An, R)
+                except Exception as e: viol('C05:graded:raises', f'classical_qsvd raised {e!r} for R={R}', inp); continue
+                for i in range(R):
+                    want = float(sv[i])
+                    if abs(float(st[i]) - want) > max(1e-3 * want, 4e-15 * float(sv[0])): viol('C05:graded:values', f'singular value {i} of a graded full-rank matrix is returned as {float(st[i])!r}, its true value is {want!r}', dict(inp, R=R), float(st[i]), want)
+                ctx.count(('graded', m, n, str(sv[-1]), R), True)
+            try:
+                _, sf, _ = qsvd.classical_qsvd_full(An)
+                for i in range(len(sv)):
+                    want = float(sv[i])
+                    if abs(float(sf[i]) - want) > max(1e-3 * want, 4e-15 * float(sv[0])): viol('C05:graded:values:full', f'singular value {i} of a graded full-rank matrix is returned as {float(sf[i])!r} by classical_qsvd_full, its true value is {want!r}', inp, float(sf[i]), want)
+            except Exception as e: viol('C05:graded:raises', f'classical_qsvd_full raised {e!r}', inp)
     res = cm.run_cases(ctx, 'cases_svd', HEADER, terms, 'check_svd', shard=40)
     if res is not None:
         ctx.cov['traces_validated_against_impl'] += len(res)
